@@ -1,0 +1,84 @@
+//! Scheduling / decision hooks for external runtime monitors
+//!
+//! Only compiled with the `verif-hooks` feature (off by default).  A monitor
+//! installs one process-global callback; the library calls [`fire`] at a few
+//! points that lie *between* units of work (tile / task boundaries, the cancel
+//! poll), never inside a critical section.
+use std::sync::{Arc, RwLock};
+
+/// A point at which the installed hook is called
+#[derive(Copy, Clone, Debug, PartialEq, Eq, Hash)]
+pub enum SchedPoint {
+    /// `CancelToken::is_cancelled` is about to read the flag
+    CancelPoll,
+    /// A worker is about to render the root tile with this corner
+    RasterTileStart {
+        /// X corner of the tile
+        x: usize,
+        /// Y corner of the tile
+        y: usize,
+    },
+    /// A worker has finished rendering the root tile with this corner
+    RasterTileEnd {
+        /// X corner of the tile
+        x: usize,
+        /// Y corner of the tile
+        y: usize,
+    },
+    /// A worker is about to build the octree task with this position
+    OctreeTaskStart {
+        /// Depth of the task's root cell
+        depth: usize,
+        /// Position of the task in the task list
+        index: usize,
+    },
+    /// A worker has finished the octree task with this position
+    OctreeTaskEnd {
+        /// Depth of the task's root cell
+        depth: usize,
+        /// Position of the task in the task list
+        index: usize,
+    },
+    /// The voxel renderer decided what to do with a tile
+    VoxelTileDecision {
+        /// Tile corner
+        corner: [usize; 3],
+        /// Tile size
+        size: usize,
+        /// What was decided
+        decision: VoxelDecision,
+    },
+}
+
+/// Decisions of the voxel renderer for one tile
+#[derive(Copy, Clone, Debug, PartialEq, Eq, Hash)]
+pub enum VoxelDecision {
+    /// Skipped, because every pixel in front of it is already filled
+    Occluded,
+    /// Interval evaluation proved it full
+    Full,
+    /// Interval evaluation proved it empty
+    Empty,
+    /// Subdivided into smaller tiles
+    Recurse,
+    /// Evaluated voxel by voxel
+    Pixels,
+}
+
+type Hook = dyn Fn(&SchedPoint) + Send + Sync;
+
+static HOOK: RwLock<Option<Arc<Hook>>> = RwLock::new(None);
+
+/// Installs (or with `None`, removes) the process-global hook
+pub fn set_hook(h: Option<Arc<Hook>>) {
+    *HOOK.write().unwrap() = h;
+}
+
+/// Calls the installed hook, if any
+#[inline]
+pub fn fire(p: SchedPoint) {
+    let h = HOOK.read().unwrap().clone();
+    if let Some(h) = h {
+        h(&p)
+    }
+}
